@@ -156,6 +156,10 @@ theorem syn_div_exact (L : Lawful O v) (p : List α) (a : Nat) (b : α)
     ∃ q, synDiv O p a b = .ok q ∧ toPoly v p = toPoly v q * (X ^ a - C (v b)) :=
   synDiv_exact L p a b ha hb hp hdvd
 
+/-- x + 1 divides x^3 + x^2 + 2x + 2 = (x^2 + 2)(x + 1) -/
+example : (X ^ 1 - C (id (-1 : ℚ)) : ℚ[X]) ∣ toPoly (id : ℚ → ℚ) [2, 2, 1, 1] :=
+  ⟨toPoly id [2, 0, 1], by simp [toPoly]; ring⟩
+
 /-- `syn_div` panics exactly on the documented inputs -/
 theorem syn_div_panics_iff (L : Lawful O v) (p : List α) (a : Nat) (b : α) :
     (∃ s, synDiv O p a b = .panic s) ↔ (a = 0 ∨ O.isZero b = true ∨ p.length ≤ a) :=
@@ -184,6 +188,7 @@ theorem syn_div_roots_panics_iff (p roots : List α) :
     (∃ s, synDivRoots O p roots = .panic s) ↔ (roots = [] ∨ p.length ≤ roots.length) :=
   synDivRoots_panic_iff p roots
 
+example : ([1, 2] : List ℚ) ≠ [] ∧ [(1 : ℚ), 2].length < [(6 : ℚ), -7, 0, 1].length := by decide
 /-- x^3 − 7x + 6 divided by (x − 1)(x − 2) is x + 3 -/
 example : synDivRoots OQ [6, -7, 0, 1] [1, 2] = .ok [3, 1, 0, 0] := by decide +kernel
 
@@ -261,6 +266,9 @@ theorem interpolate_batch_panics (N : Nat) (xss yss : List (List α)) (h : xss.l
   ⟨"number of X coordinate batches and Y coordinate batches must be the same",
     by simp [interpolateBatch, h]⟩
 
+example : [[(0 : ℚ), 1], [2, 3]].length = [[(1 : ℚ), 3], [5, 7]].length ∧
+    (∀ b ∈ [[(0 : ℚ), 1], [2, 3]], b.length = 2) ∧ (∀ b ∈ [[(1 : ℚ), 3], [5, 7]], b.length = 2) ∧
+    ([(0 : ℚ), 1].map id).Nodup := by decide +kernel
 example : interpolateBatch OQ 2 [[0, 1], [2, 3]] [[1, 3], [5, 7]] = .ok [[1, 2], [1, 2]] ∧
     interpolateBatch OQ 3 [[0, 1, 2]] [[1, 3, 7]] = .ok [[1, 1, 1]] ∧
     interpolateBatch OQ 0 [[], []] [[], []] = .ok [[], []] ∧
@@ -313,6 +321,7 @@ theorem mul_acc_spec (L : Lawful O v) (mulBase : α → β → α) (w : β → F
 theorem mul_acc_panics_iff (mulBase : α → β → α) (a : List α) (b : List β) (c : α) :
     (∃ s, mulAcc O mulBase a b c = .panic s) ↔ a.length ≠ b.length := mulAcc_panic_iff mulBase a b c
 
+example : ∀ c y : ℚ, id ((fun a b : ℚ => a * b) c y) = id c * id y := fun _ _ => rfl
 example : addInPlace OQ [1, 2] [3, 4] = .ok [4, 6] ∧ mulAcc OQ (· * ·) [1, 2] [3, 4] 5 = .ok [16, 22] := by
   decide +kernel
 
@@ -347,6 +356,7 @@ theorem batch_inversion_conc_eq (L : Lawful O v) (threads : Nat) (vals r r' : Li
 theorem batch_inversion_conc_returns (hT : Total O) (threads : Nat) (vals : List α) :
     ∃ r, batchInversionConc O threads vals = .ok r := batchInversionConc_total hT threads vals
 
+example : batchInversionConc OQ 4 [2, 0, 4, 0] = .ok [1/2, 0, 1/4, 0] := by decide +kernel
 example : batchInversion OQ [2, 0, 4, 0] = .ok [1/2, 0, 1/4, 0] ∧ batchInversion OQ [] = .ok [] ∧
     batchInversion OQ [0, 0] = .ok [0, 0] := by decide +kernel
 
